@@ -94,7 +94,7 @@ def CueTextTokenizer(cue_text: str):
     start_tag_class = 6
     end_tag = 7
     ts_tag = 8
-    annot_cref = 3
+    annot_cref = 9
 
   cue_text: str = cue_text
   position: int = 0
